@@ -59,6 +59,14 @@ StructsQ ==
     \cup {StructA(r, <<a, b>>, <<Plain, WithII(Plain)>>) : r \in Reprs, a \in {P("u8"), Str}, b \in {P("u32"), Str}}
     \cup {StructA(r, <<a, b, c>>, <<WithII(Plain), WithIK(Plain), Plain>>) : r \in Reprs, a \in {P("u16")}, b \in {Str, P("u8")}, c \in {P("u8")}}
     \cup {StructA("C", <<P("u8"), P("u8")>>, <<WithIK(Plain), WithII(Plain)>>)}
+\* #[savefile_ignore] at every position (the field exists in memory only and comes back as its Default)
+    \cup {StructA(r, <<a, b>>, fa) : r \in Reprs, a \in {P("u8"), P("u32")}, b \in {P("u8"), P("u16")}, fa \in {<<Ign, Plain>>, <<Plain, Ign>>}}
+    \cup {StructA(r, <<P("u16"), a, P("u16")>>, <<Plain, Ign, Plain>>) : r \in Reprs, a \in {P("u16"), P("u32"), Str}}
+\* runs of four and five primitive fields of equal alignment, some with a niche (bool, char): rustc may permute the inner ones
+    \cup {Struct("Rust", <<a, b, c, d>>) : a \in {P("bool"), P("u8")}, b \in {P("bool"), P("u8")}, c \in {P("bool"), P("u8")}, d \in {P("bool"), P("u8")}}
+    \cup {Struct("Rust", <<a, b, c, d>>) : a \in {P("char"), P("u32")}, b \in {P("char"), P("u32")}, c \in {P("char"), P("u32")}, d \in {P("char"), P("u32")}}
+    \cup {Struct("Rust", <<P("bool"), P("u8"), P("bool"), P("u8"), P("bool")>>), Struct("Rust", <<P("u8"), P("bool"), P("i8"), P("bool"), P("u8")>>),
+          Struct("Rust", <<P("bool"), P("u8"), P("u8"), P("bool"), Str>>), Struct("Rust", <<P("u64"), P("bool"), P("u8"), P("bool"), P("u8")>>)}
 StructsT ==
     StructsQ
     \cup {Struct(r, <<a, b>>) : r \in Reprs, a \in Mix, b \in Mix}
@@ -75,6 +83,9 @@ Shapes == { <<U>>, <<U, U>>, <<U, U, U>>,
             <<A1(P("u8")), A1(P("u16"))>>, <<A1(P("u32")), A3(P("u8"), P("u8"), P("u16"))>>,
             <<A2(P("u8"), P("u8")), A1(P("u16"))>>, <<U, A1(Str)>>, <<A1(P("u32")), U, A2(P("u16"), P("u16"))>>,
             <<A1(P("bool")), A1(P("u8"))>>,
+            <<U, VarA(<<P("u8"), P("u8")>>, <<Plain, Ign>>)>>, <<VarA(<<P("u16"), P("u8")>>, <<Ign, Plain>>), A1(P("u16"))>>,
+            <<VarA(<<P("u8"), P("u8")>>, <<Plain, Ign>>), A2(P("u8"), P("u8"))>>,
+            <<VarA(<<P("bool"), P("u8"), P("bool"), P("u8")>>, <<Plain, Plain, Plain, Plain>>), U>>,
             <<U, NVar(0, <<P("u8")>>)>>, <<NVar(0, <<P("u8"), P("u16")>>), NVar(0, <<P("u16"), P("u8")>>)>>,
             <<NVar(0, <<P("u32")>>), A1(P("u32")), NVar(0, <<Str, P("u8")>>)>> }
 Enums ==
